@@ -61,6 +61,9 @@ type Step struct {
 
 // Sim is the per-run simulator state.
 type Sim struct {
+	// IdleLimit: Run gives up when nothing becomes eligible for this long on
+	// the simulated clock (default ten minutes; histories with long silences raise it)
+	IdleLimit time.Duration
 	mu       sync.Mutex
 	tasks    [MaxTasks]*Task
 	ntasks   int
@@ -474,7 +477,11 @@ func (s *Sim) Run() string {
 			if s.anyParked() {
 				continue
 			}
-			tm := time.NewTimer(10 * time.Minute)
+			lim := s.IdleLimit
+			if lim <= 0 {
+				lim = 10 * time.Minute
+			}
+			tm := time.NewTimer(lim)
 			select {
 			case <-s.arrive:
 				tm.Stop()
